@@ -94,7 +94,7 @@ def _find(lst, key, same):
     return -1
 
 
-def evaluate(an0, snap, after_tree):
+def evaluate(an0, snap, after_tree, allow_removed=False):
     """Compares scoping before/after.  Returns Report with .problems (list of str)."""
     rep = Report()
     rep.problems = []
@@ -122,6 +122,11 @@ def evaluate(an0, snap, after_tree):
         else:
             new_occ.append(o)
     rep.new_occ = new_occ
+    if allow_removed:
+        # an enabled transform may delete expressions (annotations): their identifier occurrences simply leave the comparison
+        kept = [i for i, ao in enumerate(after_orig) if ao is not None]
+        before = [before[i] for i in kept]
+        after_orig = [after_orig[i] for i in kept]
     for i, ao in enumerate(after_orig):
         if ao is None:
             rep.problems.append('identifier occurrence disappeared: %r' % (before[i][0].name,))
@@ -135,6 +140,10 @@ def evaluate(an0, snap, after_tree):
             if isinstance(lst, list):
                 for st in lst:
                     if isinstance(st, ast.stmt) and not snap.has_node(st):
+                        # a transform may replace a statement by a new one built from original parts (AnnAssign -> Assign);
+                        # alias definitions are the new statements whose target is a new Name node
+                        if isinstance(st, ast.Assign) and len(st.targets) == 1 and snap.has_node(st.targets[0]):
+                            continue
                         inserted.append((node, field, st))
     rep.inserted = inserted
     for parent, field, st in inserted:
